@@ -187,6 +187,8 @@ Section Model.
       {| f_vars := f_vars st; f_direct := f_direct st;
          f_r3 := if Nat.eqb slot 3 then M else f_r3 st;
          f_r9 := if Nat.eqb slot 9 then M else f_r9 st |}
+    | FxSetDirect b =>
+      {| f_vars := f_vars st; f_direct := b; f_r3 := f_r3 st; f_r9 := f_r9 st |}
     end.
 
   (* `prior` is the value of self._direct before the call (True on a fresh object) *)
